@@ -1,5 +1,6 @@
 import Proofs.DateLemmas
 import Proofs.ExprLitLemmas
+import Proofs.Utf8Lemmas
 /-!
 # Helper lemmas about the texts `tuesday.Strftime`'s model prints (`Liquid/Filters/Date.lean`)
 
@@ -265,5 +266,128 @@ theorem fmtNum_zero2_eq_intDec (n : Int) (h : n < 0 ∨ 10 ≤ n) : fmtNum .zero
       simp; omega
     have : 2 - (natDec n.natAbs).length = 0 := by omega
     simp [this, zeros]
+
+/-! ## reading digits back; parse, then format -/
+
+theorem dg_of_digit? {a : UInt8} {x : Nat} (h : Cal.digit? a = some x) : a = dg x ∧ x < 10 := by
+  unfold Cal.digit? at h
+  split at h
+  · next hd =>
+    cases h
+    have hb := (isDigit_iff a).1 hd
+    refine ⟨?_, by omega⟩
+    unfold dg
+    have : 48 + (a.toNat - 48) = a.toNat := by omega
+    rw [this]
+    exact (toUInt8_eq_of a.toNat a rfl).symm
+  · cases h
+
+theorem pad2_of_num2 {a b : UInt8} {n : Nat} (h : Cal.num2 a b = some n) : [a, b] = pad2 n ∧ n < 100 := by
+  unfold Cal.num2 at h
+  split at h
+  · next x y hx hy =>
+    cases h
+    obtain ⟨rfl, hx10⟩ := dg_of_digit? hx
+    obtain ⟨rfl, hy10⟩ := dg_of_digit? hy
+    refine ⟨?_, by omega⟩
+    have e1 : (10 * x + y) / 10 = x := by omega
+    have e2 : (10 * x + y) % 10 = y := by omega
+    simp only [pad2, e1, e2]
+  · cases h
+
+theorem pad4_of_num4 {a b c d : UInt8} {n : Nat} (h : Cal.num4 a b c d = some n) : [a, b, c, d] = pad4 n ∧ n < 10000 := by
+  unfold Cal.num4 at h
+  split at h
+  · next x y hx hy =>
+    cases h
+    obtain ⟨e1, h1⟩ := pad2_of_num2 hx
+    obtain ⟨e2, h2⟩ := pad2_of_num2 hy
+    simp only [pad2, List.cons.injEq, and_true] at e1 e2
+    refine ⟨?_, by omega⟩
+    have f1 : (100 * x + y) / 1000 = x / 10 := by omega
+    have f2 : (100 * x + y) / 100 % 10 = x % 10 := by omega
+    have f3 : (100 * x + y) / 10 % 10 = y / 10 := by omega
+    have f4 : (100 * x + y) % 10 = y % 10 := by omega
+    simp only [pad4, f1, f2, f3, f4, e1.1, e1.2, e2.1, e2.2]
+  · cases h
+
+
+/-- what `instant` returns when it returns a time -/
+theorem instant_time {y mo d h mi s : Nat} {u : Int} (hi : Cal.instant y mo d h mi s = .time u) :
+    1 ≤ mo ∧ mo ≤ 12 ∧ 1 ≤ d ∧ d ≤ Cal.daysInMonth (y : Int) mo ∧ h < 24 ∧ mi < 60 ∧ s < 60 ∧
+    u = Cal.daysOfCivil (y : Int) mo d * 86400 + ((h * 3600 + mi * 60 + s : Nat) : Int) := by
+  unfold Cal.instant at hi
+  split at hi
+  · next hv =>
+    cases hi
+    simp only [Bool.and_eq_true, decide_eq_true_eq] at hv
+    obtain ⟨⟨⟨⟨⟨⟨a, b⟩, c⟩, e⟩, f⟩, g⟩, i⟩ := hv
+    exact ⟨a, b, c, e, f, g, i, rfl⟩
+  · cases hi
+
+theorem ofFields_time {y mo d h mi s : Option Nat} {u : Int} (hf : Cal.ofFields y mo d h mi s = .time u) :
+    ∃ y' mo' d' h' mi' s', y = some y' ∧ mo = some mo' ∧ d = some d' ∧ h = some h' ∧ mi = some mi' ∧ s = some s' ∧
+      Cal.instant y' mo' d' h' mi' s' = .time u := by
+  unfold Cal.ofFields at hf
+  split at hf
+  · exact ⟨_, _, _, _, _, _, rfl, rfl, rfl, rfl, rfl, rfl, hf⟩
+  · cases hf
+
+/-- the broken-down time of midnight of a valid civil date -/
+theorem broken_of_civil (y : Int) (m d : Nat) (hm1 : 1 ≤ m) (hm : m ≤ 12) (hd1 : 1 ≤ d) (hd : d ≤ Cal.daysInMonth y m)
+    (sod : Nat) (hs : sod < 86400) :
+    (Cal.broken (Cal.daysOfCivil y m d * 86400 + (sod : Int))).year = y ∧
+    (Cal.broken (Cal.daysOfCivil y m d * 86400 + (sod : Int))).month = m ∧
+    (Cal.broken (Cal.daysOfCivil y m d * 86400 + (sod : Int))).day = d ∧
+    (Cal.broken (Cal.daysOfCivil y m d * 86400 + (sod : Int))).hour = sod / 3600 ∧
+    (Cal.broken (Cal.daysOfCivil y m d * 86400 + (sod : Int))).min = sod / 60 % 60 ∧
+    (Cal.broken (Cal.daysOfCivil y m d * 86400 + (sod : Int))).sec = sod % 60 := by
+  have e1 : (Cal.daysOfCivil y m d * 86400 + (sod : Int)) / 86400 = Cal.daysOfCivil y m d := by omega
+  have e2 : Cal.secOfDay (Cal.daysOfCivil y m d * 86400 + (sod : Int)) = sod := by unfold Cal.secOfDay; omega
+  have e3 := Cal.civilOfDays_daysOfCivil y m d hm1 hm hd1 hd
+  simp only [Cal.broken, e1, e2, e3, and_self]
+
+/-- **parse, then format.** A ten-byte string that `ParseDate` accepts (layout `2006-01-02`) is printed back
+    unchanged by `%Y-%m-%d` of the instant it denotes. -/
+theorem parseDate_then_strftime_date (s : Bytes) (u : Int) (hl : s.length = 10) (hp : Cal.parseDate s = .time u) :
+    strftime (Cal.broken u) fmtDate = .ok s := by
+  obtain ⟨y1, y2, y3, y4, c1, m1, m2, c2, d1, d2, rfl⟩ : ∃ a b c d e f g h i j, s = [a, b, c, d, e, f, g, h, i, j] := by
+    match s, hl with
+    | [a, b, c, d, e, f, g, h, i, j], _ => exact ⟨a, b, c, d, e, f, g, h, i, j, rfl⟩
+  unfold Cal.parseDate at hp
+  split at hp
+  · next Y1 Y2 Y3 Y4 M1 M2 D1 D2 heq =>
+    simp only [List.cons.injEq, and_true] at heq
+    obtain ⟨rfl, rfl, rfl, rfl, rfl, rfl, rfl, rfl, rfl, rfl⟩ := heq
+    obtain ⟨y, mo, d, h, mi, sc, hy, hmo, hd, hh, hmi, hsc, hi⟩ := ofFields_time hp
+    cases hh; cases hmi; cases hsc
+    obtain ⟨a, b, c, e, _, _, _, hu⟩ := instant_time hi
+    obtain ⟨ey, hy4⟩ := pad4_of_num4 hy
+    obtain ⟨em, _⟩ := pad2_of_num2 hmo
+    obtain ⟨ed, _⟩ := pad2_of_num2 hd
+    have hb := broken_of_civil (y : Int) mo d a b c e 0 (by decide)
+    have hu' : u = Cal.daysOfCivil (y : Int) mo d * 86400 + ((0 : Nat) : Int) := by rw [hu]
+    rw [← hu'] at hb
+    rw [strftime_eq_render, tokens_date]
+    simp only [render, directive_Y, directive_m, directive_d, Res.bind, hb.1, hb.2.1, hb.2.2.1,
+      fmtNum_zero4 y hy4, fmtNum_zero2 mo (by omega), fmtNum_zero2 d (by
+        have : d ≤ 31 := by
+          refine Nat.le_trans e ?_
+          unfold Cal.daysInMonth; split
+          · split <;> decide
+          · split <;> decide
+        omega)]
+    rw [← ey, ← em, ← ed]
+    rfl
+  all_goals first
+    | (next heq => exact absurd (congrArg List.length heq) (by simp))
+    | (split at hp <;> cases hp)
+
+
+theorem directive_j (t : Cal.Broken) : directive t ⟨[], [], 106⟩ = .ok (fmtNum .zero 3 t.yday) := rfl
+
+/-- `%j` -/
+def fmtYday : Bytes := [37, 106]
+theorem tokens_yday : tokens fmtYday.length fmtYday = [.dir ⟨[], [], 106⟩] := by decide +kernel
 
 end DateF
